@@ -33,6 +33,9 @@ pub enum Item {
         /// spread the start tag itself over several lines (one attribute per line) where the comment form allows it
         #[serde(default)]
         tag_lines: bool,
+        /// 0 no severity attribute, 1 `severity="warning"`, 2 `severity="Info"`: drift of such a block is reported but does not fail the run
+        #[serde(default)]
+        severity: u8,
     },
     Close { form: u8, indent: u8 },
     Code(u16),
@@ -83,7 +86,7 @@ pub fn events_of(f: &DFile, paths: &[String]) -> Vec<Ev> {
     f.items
         .iter()
         .map(|it| match it {
-            Item::Open { name, affects, form, multiline, indent, tag_lines } => {
+            Item::Open { name, affects, form, multiline, indent, tag_lines, severity } => {
                 let mut attrs: Vec<Attr> = vec![];
                 if let Some(n) = name {
                     attrs.push(Attr::simple("name", NAMES[*n as usize % NAMES.len()]));
@@ -100,6 +103,11 @@ pub fn events_of(f: &DFile, paths: &[String]) -> Vec<Ev> {
                         parts.push(format!("{sep}{}:{name}", file.unwrap_or_default()));
                     }
                     attrs.push(Attr::simple("affects", &parts.join(",")));
+                }
+                match severity % 3 {
+                    1 => attrs.push(Attr::simple("severity", "warning")),
+                    2 => attrs.push(Attr::simple("severity", "Info")),
+                    _ => {}
                 }
                 if *tag_lines {
                     for a in &mut attrs {
@@ -415,6 +423,7 @@ pub fn check(c: &DriftCase, probe: &Probe) -> Verdict {
     };
     let modified_named: BTreeSet<(String, String)> = listing.iter().filter(|l| l.modified && l.attrs.contains_key("name")).map(|l| (l.file.clone(), l.attrs["name"].clone())).collect();
     let mut want: Vec<(String, u64, u64, String, String)> = vec![];
+    let mut want_error = false;
     for l in listing.iter().filter(|l| l.modified) {
         if let Some(a) = l.attrs.get("affects") {
             for r in a.split(',') {
@@ -424,6 +433,9 @@ pub fn check(c: &DriftCase, probe: &Probe) -> Verdict {
                 let n = n.trim().to_string();
                 if !modified_named.contains(&(f.clone(), n.clone())) {
                     want.push((l.file.clone(), l.line, l.column, f, n));
+                    if !l.attrs.contains_key("severity") {
+                        want_error = true;
+                    }
                 }
             }
         }
@@ -447,7 +459,7 @@ pub fn check(c: &DriftCase, probe: &Probe) -> Verdict {
     if got != want {
         return Verdict::Fail(show(&format!("affects diagnostics differ from the reference model over the listed flags\n expected (file, line, col, target file, target name): {want:?}\n observed: {got:?}"), &vo));
     }
-    let want_exit = if want.is_empty() { 0 } else { 1 };
+    let want_exit = if want_error { 1 } else { 0 };
     if vo.code != Some(want_exit) {
         return Verdict::Fail(show(&format!("exit status {:?}, expected {want_exit}", vo.code), &vo));
     }
@@ -543,8 +555,8 @@ fn repair(c: &DriftCase, w: &World, probe: &Probe) -> Verdict {
 
 pub fn file_strategy() -> BoxedStrategy<DFile> {
     let r = (prop_oneof![3 => Just(None), 2 => (0u8..4).prop_map(Some), 1 => Just(Some(255u8))], prop_oneof![5 => 0u8..5, 1 => Just(255u8)]).prop_map(|(file, name)| Ref { file, name });
-    let open = (proptest::option::weighted(0.8, 0u8..5), prop_oneof![2 => Just(vec![]), 2 => proptest::collection::vec(r, 1..4)], any::<u8>(), proptest::bool::weighted(0.15), prop_oneof![3 => Just(0u8), 1 => 0u8..5], proptest::bool::weighted(0.12))
-        .prop_map(|(name, affects, form, multiline, indent, tag_lines)| Item::Open { name, affects, form, multiline, indent, tag_lines });
+    let open = (proptest::option::weighted(0.8, 0u8..5), prop_oneof![2 => Just(vec![]), 2 => proptest::collection::vec(r, 1..4)], any::<u8>(), proptest::bool::weighted(0.15), prop_oneof![3 => Just(0u8), 1 => 0u8..5], proptest::bool::weighted(0.12), prop_oneof![4 => Just(0u8), 1 => 1u8..3])
+        .prop_map(|(name, affects, form, multiline, indent, tag_lines, severity)| Item::Open { name, affects, form, multiline, indent, tag_lines, severity });
     let close = (any::<u8>(), prop_oneof![3 => Just(0u8), 1 => 0u8..5]).prop_map(|(form, indent)| Item::Close { form, indent });
     let item = prop_oneof![2 => open, 2 => close, 5 => any::<u16>().prop_map(Item::Code)];
     (0..SUFFIXES.len(), 0u8..4, proptest::collection::vec(item, 3..30), gitcase::edits_strategy(9), prop_oneof![6 => Just(0u8), 1 => Just(1u8), 1 => Just(2u8), 1 => Just(3u8)], proptest::bool::weighted(0.15))
@@ -565,9 +577,9 @@ pub fn small_scope_cases() -> Vec<DriftCase> {
     let py = SUFFIXES.iter().position(|(s, _)| *s == "py").unwrap();
     let items = vec![
         Item::Code(0),
-        Item::Open { name: Some(0), affects: vec![Ref { file: None, name: 1 }], form: 0, multiline: false, indent: 0, tag_lines: false },
+        Item::Open { name: Some(0), affects: vec![Ref { file: None, name: 1 }], form: 0, multiline: false, indent: 0, tag_lines: false, severity: 0 },
         Item::Code(0),
-        Item::Open { name: Some(1), affects: vec![], form: 0, multiline: false, indent: 0, tag_lines: false },
+        Item::Open { name: Some(1), affects: vec![], form: 0, multiline: false, indent: 0, tag_lines: false, severity: 0 },
         Item::Code(0),
         Item::Close { form: 0, indent: 0 },
         Item::Code(0),
@@ -606,7 +618,7 @@ pub fn small_scope_cases() -> Vec<DriftCase> {
 }
 
 pub fn run(run: &mut Run) {
-    run.rule = "enumerated small scope: every edit script of <= 2 single-line operations at every position of a fixed nine-line Python file with nested, linked blocks under -U0 and -U3 (1 624 cases). random: 1..4 files of random suffixes (root or sub-directories, one with a space), each a balanced list of own-line tag comments (any comment form of the language, 15% multi-line comments, 12% start tags spread over several lines, indentation), blocks named from a pool of 5 (duplicates, unnamed) with affects lists of 1..3 references (same file, other file, missing file, missing name, cycles) and code lines; an edit script of 0..8 operations on new-side lines (add k lines, delete k lines at a gap, replace a line incl. tag lines) from which the old state is derived; file fates modified / renamed / new / untouched / an extra deleted file; in 25% further entries in the same diff (a binary file, an added empty file, a changed file of unknown suffix holding unbalanced tags, a file emptied); hostile removed lines (`-- x`, `--- a/f`, `@@ -1 +1 @@`, …) in 10%; missing trailing newline in 15%; real git in a generated mode (-U0..10, unstaged/--cached/HEAD/commit-to-commit, 4 diff algorithms, -M). Oracle part 1: flag per block from an independent reader of git's diff (must / must-not / unspecified zones), part 2: affects diagnostics = reference model over the listed flags, exit status; part 3: after touching every linked block the run passes. Non-trivial = a file with >= 2 hunks, a must-modified block with affects and a must-not block.".into();
+    run.rule = "enumerated small scope: every edit script of <= 2 single-line operations at every position of a fixed nine-line Python file with nested, linked blocks under -U0 and -U3 (1 624 cases). random: 1..4 files of random suffixes (root or sub-directories, one with a space), each a balanced list of own-line tag comments (any comment form of the language, 15% multi-line comments, 12% start tags spread over several lines, indentation), blocks named from a pool of 5 (duplicates, unnamed) with affects lists of 1..3 references (same file, other file, missing file, missing name, cycles), 20% of them with severity warning / Info (reported, not failing) and code lines; an edit script of 0..8 operations on new-side lines (add k lines, delete k lines at a gap, replace a line incl. tag lines) from which the old state is derived; file fates modified / renamed / new / untouched / an extra deleted file; in 25% further entries in the same diff (a binary file, an added empty file, a changed file of unknown suffix holding unbalanced tags, a file emptied); hostile removed lines (`-- x`, `--- a/f`, `@@ -1 +1 @@`, …) in 10%; missing trailing newline in 15%; real git in a generated mode (-U0..10, unstaged/--cached/HEAD/commit-to-commit, 4 diff algorithms, -M). Oracle part 1: flag per block from an independent reader of git's diff (must / must-not / unspecified zones), part 2: affects diagnostics = reference model over the listed flags, exit status; part 3: after touching every linked block the run passes. Non-trivial = a file with >= 2 hunks, a must-modified block with affects and a must-not block.".into();
     run.assumptions = vec![
         "file names avoid characters git C-quotes".into(),
         "mixed -/+ groups count through their added lines only (removed lines of a mixed group are not asserted: see K2 in DESIGN.md)".into(),
